@@ -8,12 +8,22 @@
                                  model only (the spec column repeats the model)
            answer [offsets; bytes; W-slices; RO-slices; items; extra]
                   slices for all 0<=a<=b<=n in lexicographic order, items for 0<=i<n
+           [1; h5; cs; ops; []; pairs]   long columns: slices only for the listed in-range [a; b], items for the a < n
    case 2  plain field      [2; h5; fdt; parts; key]      parts [pdt; values], key [] | [lo; hi; key_values]
            (numeric, timestamp, fixed string, categorical codes; a value is the byte list of
             its canonical representation, so that 64-bit integers and floats fit the wire)
-           answer [dtype; data; slices; items; key_values] *)
+           answer [dtype; data; slices; items; key_values]
+   case 3  several fields   [3; specs; ops]     specs [0; h5; cs] indexed | [1; h5; dtype] plain
+           ops    [field; op]   op as in case 1, or [5] = a read (data[:], len) that must leave no trace
+           answer one entry per field: the case-1 answer (no extra) | [dtype; data]
+   case 4  arrays as objects [4; backings; ops]  (Model/FieldWorld.v part 2; values are byte lists)
+           ops    [0; vals] a_n = array(vals) | [1; k; vals] a_k[:] = vals | [2; k; i; v] a_k[i] = v
+                  [3; f; arg] field_f.write_part(arg)   arg [0; k] a_k | [1; k; a; b] a_k[a:b] | [2; g; a; b] field_g.data[a:b]
+                  [4; f; k; same] write_part(a_k, move_mem=True) | [5; f] complete | [6; f; i; v] data[i] = v | [7; f] clear
+           answer [caller arrays; fields]; the spec column is -1 when the value semantics does not
+                  define the history (move_mem, out-of-range index): no claim *)
 From Coq Require Import ZArith List Bool.
-From EV Require Import Res Arr Val IdxWriter IdxWriterSpec.
+From EV Require Import Res Arr Val IdxWriter IdxWriterSpec FieldWorld FieldWorldSpec.
 Import ListNotations.
 Open Scope Z_scope.
 
@@ -49,19 +59,24 @@ Definition do_extra (ind vals:list Z) (e:val) : val :=
   | _ => vbad
   end.
 
-Definition idx_answer (ind vals:list Z) (extra:list val) : val :=
-  let n := iw_length ind in
+(* reads for the given (a, b) pairs and items; the full answer takes all 0<=a<=b<=n and all 0<=i<n *)
+Definition idx_answer_gen (ind vals:list Z) (pairs:list (Z * Z)) (items:list Z) (extra:list val) : val :=
   VL [vlist ind; vlist vals;
-      VL (map (fun p => of_res vlist2 (iw_getslice false ind vals (fst p) (snd p))) (pairs_upto n));
-      VL (map (fun p => of_res vlist2 (iw_getslice true ind vals (fst p) (snd p))) (pairs_upto n));
-      VL (map (fun i => of_res vlist (iw_getint ind vals i)) (rangeZ n));
+      VL (map (fun p => of_res vlist2 (iw_getslice false ind vals (fst p) (snd p))) pairs);
+      VL (map (fun p => of_res vlist2 (iw_getslice true ind vals (fst p) (snd p))) pairs);
+      VL (map (fun i => of_res vlist (iw_getint ind vals i)) items);
       VL (map (do_extra ind vals) extra)].
 
-Definition idx_spec (strs:list (list Z)) (extra:val) : val :=
-  let n := len strs in
-  let sl := VL (map (fun p => vlist2 (spec_slice strs (fst p) (snd p))) (pairs_upto n)) in
+Definition idx_answer (ind vals:list Z) (extra:list val) : val :=
+  let n := iw_length ind in idx_answer_gen ind vals (pairs_upto n) (rangeZ n) extra.
+
+Definition idx_spec_gen (strs:list (list Z)) (pairs:list (Z * Z)) (items:list Z) (extra:val) : val :=
+  let sl := VL (map (fun p => vlist2 (spec_slice strs (fst p) (snd p))) pairs) in
   VL [vlist (spec_offsets strs); vlist (spec_bytes strs); sl; sl;
-      VL (map (fun i => vlist (spec_item strs i)) (rangeZ n)); extra].
+      VL (map (fun i => vlist (spec_item strs i)) items); extra].
+
+Definition idx_spec (strs:list (list Z)) (extra:val) : val :=
+  let n := len strs in idx_spec_gen strs (pairs_upto n) (rangeZ n) extra.
 
 Definition nth_val (v:val) (k:nat) : val :=
   match v with VL l => nth k l (VL []) | _ => VL [] end.
@@ -73,6 +88,18 @@ Definition entry_idx (h5:bool) (cs:Z) (ops:list iwop) (extra:list val) : val :=
     VL [m; idx_spec (written [] ops) (nth_val m 5)]
   | r => let e := of_res (fun _ => vbad) r in
          VL [e; idx_spec (written [] ops) (VL [])]
+  end.
+
+(* long columns: only the listed in-range (a, b) slices, and the items a < n, are read *)
+Definition as_pair (v:val) : option (Z * Z) :=
+  match v with VL [VZ a; VZ b] => Some (a, b) | _ => None end.
+
+Definition entry_idx_lite (h5:bool) (cs:Z) (ops:list iwop) (pairs:list (Z * Z)) : val :=
+  let strs := written [] ops in
+  let items := filter (fun i => i <? len strs) (map fst pairs) in
+  match iw_history h5 cs ops with
+  | Ok (ind, vals) => VL [idx_answer_gen ind vals pairs items []; idx_spec_gen strs pairs items (VL [])]
+  | r => VL [of_res (fun _ => vbad) r; idx_spec_gen strs pairs items (VL [])]
   end.
 
 (* plain fields over an element type *)
@@ -114,12 +141,85 @@ Definition as_part {A} (dec:val -> option (list A)) (v:val) : option (Z * list A
   | _ => None
   end.
 
+(* ---- case 3: several fields ------------------------------------------------------------------ *)
+Definition as_fspec (v:val) : option (fspec * Z) :=
+  match v with
+  | VL [VZ 0; VZ h5; VZ cs] => Some (SIdx (negb (h5 =? 0)) cs, 0)
+  | VL [VZ 1; VZ h5; VZ dt] => Some (SPlain (negb (h5 =? 0)), dt)
+  | _ => None
+  end.
+
+Definition as_mop (v:val) : option (Z * mop) :=
+  match v with
+  | VL [VZ i; VL [VZ 5]] => Some (i, MRead)
+  | VL [VZ i; o] => match as_op o with Some o => Some (i, MOp o) | None => None end
+  | _ => None
+  end.
+
+Definition writer_ops (ms:list mop) : list iwop :=
+  flat_map (fun m => match m with MOp o => [o] | MRead => [] end) ms.
+
+Definition fld_answer (sd:fspec * Z) (f:fld) : val :=
+  match fst sd with
+  | SIdx _ _ => let d := fld_idx_data f in idx_answer (fst d) (snd d) []
+  | SPlain _ => VL [VZ (snd sd); vlist2 (fld_plain_data f)]
+  end.
+
+Definition fld_spec (sd:fspec * Z) (ms:list mop) : val :=
+  let w := written [] (writer_ops ms) in
+  match fst sd with
+  | SIdx _ _ => idx_spec w (VL [])
+  | SPlain _ => VL [VZ (snd sd); vlist2 w]
+  end.
+
+Definition entry_multi (specs:list (fspec * Z)) (h:list (Z * mop)) : val :=
+  let spec := VL (map (fun isd => fld_spec (snd isd) (proj (fst isd) h))
+                      (combine (rangeZ (len specs)) specs)) in
+  match world_history (map fst specs) h with
+  | Ok fs => VL [VL (map (fun sf => fld_answer (fst sf) (snd sf)) (combine specs fs)); spec]
+  | r => VL [of_res (fun _ => vbad) r; spec]
+  end.
+
+(* ---- case 4: arrays as objects ------------------------------------------------------------------ *)
+Definition as_arg (v:val) : option arg :=
+  match v with
+  | VL [VZ 0; VZ k] => Some (ACaller k)
+  | VL [VZ 1; VZ k; VZ a; VZ b] => Some (ACallerSlice k a b)
+  | VL [VZ 2; VZ g; VZ a; VZ b] => Some (AField g a b)
+  | _ => None
+  end.
+
+Definition as_aop (v:val) : option (aop (list Z)) :=
+  match v with
+  | VL [VZ 0; vals] => match as_list2 vals with Some l => Some (CNew l) | None => None end
+  | VL [VZ 1; VZ k; vals] => match as_list2 vals with Some l => Some (CFill k l) | None => None end
+  | VL [VZ 2; VZ k; VZ i; x] => match as_list x with Some x => Some (CSet k i x) | None => None end
+  | VL [VZ 3; VZ f; a] => match as_arg a with Some a => Some (FPart f a) | None => None end
+  | VL [VZ 4; VZ f; VZ k; VZ same] => Some (FPartMove f k (negb (same =? 0)))
+  | VL [VZ 5; VZ f] => Some (FComplete f)
+  | VL [VZ 6; VZ f; VZ i; x] => match as_list x with Some x => Some (FSetItem f i x) | None => None end
+  | VL [VZ 7; VZ f] => Some (FClear f)
+  | _ => None
+  end.
+
+Definition world_val (v:list (list (list Z)) * list (list (list Z))) : val :=
+  VL [VL (map vlist2 (fst v)); VL (map vlist2 (snd v))].
+
+Definition entry_alias (backings:list bool) (ops:list (aop (list Z))) : val :=
+  VL [of_res world_val (aw_history [] backings ops);
+      match v_run (v_fresh backings) ops with Some v => world_val v | None => VZ (-1) end].
+
 Definition entry_C01 (v:val) : val :=
   match v with
   | VL [VZ 1; VZ h5; VZ cs; VL ops; VL extra] =>
     match all_some (map as_op ops) with
     | Some ops => entry_idx (negb (h5 =? 0)) cs ops extra
     | None => vbad
+    end
+  | VL [VZ 1; VZ h5; VZ cs; VL ops; VL extra; VL pairs] =>
+    match all_some (map as_op ops), all_some (map as_pair pairs) with
+    | Some ops, Some pairs => entry_idx_lite (negb (h5 =? 0)) cs ops pairs
+    | _, _ => vbad
     end
   | VL [VZ 2; VZ h5; VZ fdt; VL parts; key] =>
     match all_some (map (as_part as_list2) parts) with
@@ -141,6 +241,16 @@ Definition entry_C01 (v:val) : val :=
       | None => vbad
       end
     | None => vbad
+    end
+  | VL [VZ 3; VL specs; VL ops] =>
+    match all_some (map as_fspec specs), all_some (map as_mop ops) with
+    | Some specs, Some ops => entry_multi specs ops
+    | _, _ => vbad
+    end
+  | VL [VZ 4; backings; VL ops] =>
+    match as_list backings, all_some (map as_aop ops) with
+    | Some bs, Some ops => entry_alias (map (fun b => negb (b =? 0)) bs) ops
+    | _, _ => vbad
     end
   | _ => vbad
   end.
